@@ -251,13 +251,28 @@ def rule_sizes(chk: Check, model, rid: str):
     # without a message (seq < 0) do count: they address the last ring slot, which must still hold the default output
     f_mt = model.func("base.Timings.get_masked_timings")
     chk.used(f_mt.qualname)
-    mask_writes = [n for n in ast.walk(f_mt.node) if (isinstance(n, (ast.Assign, ast.AugAssign, ast.AnnAssign)) and any(
+    # (the method and the module-level helpers of its module that it refers to by name: a masking helper may live next to it)
+    scope, todo = [], [f_mt]
+    while todo:
+        f_ = todo.pop()
+        if any(f_ is g_ for g_ in scope):
+            continue
+        scope.append(f_)
+        for n in ast.walk(f_.node):
+            if isinstance(n, ast.Name) and isinstance(n.ctx, ast.Load) and f"{f_mt.module}.{n.id}" in model.functions and len(scope) < 8:
+                todo.append(model.functions[f"{f_mt.module}.{n.id}"])
+
+    class _Scope:
+        pass
+    f_scope = _Scope()
+    f_scope.node = ast.Module(body=[f_.node for f_ in scope], type_ignores=[])
+    mask_writes = [n for n in ast.walk(f_scope.node) if (isinstance(n, (ast.Assign, ast.AugAssign, ast.AnnAssign)) and any(
         isinstance(t, ast.Attribute) and t.attr == "mask" or (isinstance(t, ast.Subscript) and isinstance(t.value, ast.Attribute) and t.value.attr == "mask")
         for t in (n.targets if isinstance(n, ast.Assign) else [n.target])))]
     # reference: one write, `arr.mask[:, :, :, j] = True` in the helper that hides the *other generations*
     okm = len(mask_writes) == 1 and isinstance(mask_writes[0], ast.Assign) and isinstance(mask_writes[0].value, ast.Constant) and mask_writes[0].value.value is True \
         and isinstance(mask_writes[0].targets[0], ast.Subscript)
-    makers = [n for n in ast.walk(f_mt.node) if isinstance(n, ast.Call) and isinstance(n.func, ast.Attribute) and n.func.attr in ("masked_array", "masked_where", "masked_less", "masked_equal", "masked_invalid")]
+    makers = [n for n in ast.walk(f_scope.node) if isinstance(n, ast.Call) and isinstance(n.func, ast.Attribute) and n.func.attr in ("masked_array", "masked_where", "masked_less", "masked_equal", "masked_invalid")]
     parts = [n for n in ast.walk(f_mt.node) if isinstance(n, ast.Call) and ast.unparse(n.func).endswith("partial") and n.args and isinstance(n.args[0], ast.Name) and len(n.args) == 2
              and isinstance(n.args[1], ast.UnaryOp) and isinstance(n.args[1].op, ast.Invert) and isinstance(n.args[1].operand, ast.Attribute) and n.args[1].operand.attr == "run"]
     okm = okm and len(makers) == 1 and makers[0].func.attr == "masked_array" and len(parts) == 1
